@@ -161,6 +161,36 @@ fn main() {
             ctx.mirror(&l, knot);
         }
     }
+    // wide torus knots: T(4,5) as a 4-strand and as a 5-strand closure, and the two mirror diagrams, over Z through the homology-level
+    // route, several builds each. These are the smallest diagrams whose integral homology has torsion of order 4 next to units in the
+    // Smith diagonal, so the q-degree under which a torsion generator is filed depends on the exact generators the homology calculator
+    // returns (and those depend on the hash order of the engine): same diagram twice, two diagrams of the knot, and the mirror rule.
+    {
+        let w4: Vec<i32> = [1, 2, 3].repeat(5);
+        let w5: Vec<i32> = [1, 2, 3, 4].repeat(4);
+        let neg = |w: &Vec<i32>| w.iter().map(|x| -x).collect::<Vec<i32>>();
+        if let (Some(a), Some(b), Some(ma), Some(mb)) = (braid_closure(4, &w4), braid_closure(5, &w5), braid_closure(4, &neg(&w4)), braid_closure(5, &neg(&w5))) {
+            for red in [false, true] {
+                let mut first: Option<(Tbl, Tbl)> = None;
+                for round in 0..(if thorough { 24 } else { 8 }) {
+                    ctx.s.count("wide-torus.round");
+                    let (ta, tb, tma, tmb) = (table(&a, Rg::Z, red, true), table(&b, Rg::Z, red, true), table(&ma, Rg::Z, red, true), table(&mb, Rg::Z, red, true));
+                    let (Some(ta), Some(tb), Some(tma), Some(tmb)) = (ta, tb, tma, tmb) else {
+                        ctx.s.oracle(false, "the library computes Kh of a valid diagram without panic/hang", "T(4,5) closures", "panic/timeout"); break };
+                    let desc = format!("T(4,5): 4-strand {} / 5-strand {} reduced={} round={}", link_txt(&a), link_txt(&b), red as u8, round);
+                    ctx.s.oracle(ta == tb, "isotopic / relabelled diagrams have isomorphic bigraded Khovanov homology", &desc, &format!("{} vs {}", txt(&ta), txt(&tb)));
+                    ctx.s.oracle(tma == tmb, "isotopic / relabelled diagrams have isomorphic bigraded Khovanov homology", &format!("mirror of {}", desc), &format!("{} vs {}", txt(&tma), txt(&tmb)));
+                    ctx.s.oracle(mirror_rule(&ta) == tma, "mirror: free part (i,j)->(-i,-j), torsion (i,j)->(1-i,-j)", &desc, &format!("orig {} mirror {}", txt(&ta), txt(&tma)));
+                    ctx.s.oracle(mirror_rule(&tb) == tmb, "mirror: free part (i,j)->(-i,-j), torsion (i,j)->(1-i,-j)", &desc, &format!("orig {} mirror {}", txt(&tb), txt(&tmb)));
+                    match &first {
+                        None => first = Some((ta, tma)),
+                        Some((fa, fma)) => ctx.s.oracle(*fa == ta && *fma == tma, "the same diagram evaluated twice gives the same table", &desc, &format!("{} / {} vs first {} / {}", txt(&ta), txt(&tma), txt(fa), txt(fma))),
+                    }
+                    ctx.s.eval_only(&desc, true);
+                }
+            }
+        }
+    }
     // conjugation and cancelling pairs carried out with the LIBRARY's braid algebra (Braid::new, inv, *=, closure): g·b·g⁻¹ and
     // g·g⁻¹·b close to diagrams of the same link as b ("Markov moves on a braid word before closure")
     for _ in 0..(if thorough { 40 } else { 10 }) {
